@@ -1,12 +1,17 @@
 import vlib
 
 STALE_KEY = "stale-service-id-after-failed-first-syncs"
+MAGLEV_KEY = "maglev-lut-deleted-before-frontends-updated"
 
 
 def classify(case_line):
     # the scripted history that reproduces the stale-prevSvcMap finding (see known-findings.txt)
     if "scripted:stale-prev-id" in case_line.get("tags", []):
         return STALE_KEY
+    # histories in which the driver saw a maglev-flagged frontend without a complete LUT after some single write; the
+    # driver emits such a history a second time with the maglev part of the oracle off, so nothing else is masked
+    if "maglev-midupdate" in case_line.get("tags", []):
+        return MAGLEV_KEY
     return None
 
 
@@ -21,7 +26,7 @@ CFG = dict(
          "meta address, external/internal traffic policy, session affinity, TCP/UDP; a third of the histories with the maglev annotation) with 0-6 endpoints (ready / not ready / "
          "terminating, local or on one of 3 remote nodes); between applies services are added, removed or changed and endpoints "
          "added, removed or change state; an apply may have write failures (a hash predicate on the key, or every write after "
-         "the n-th) and may be followed by a restart (new Syncer over the same maps); 2 scripted histories first. "
+         "the n-th) and may be followed by a restart (new Syncer over the same maps); 3 scripted histories first. "
          "non-trivial = >=10 single writes, a completed apply, and a failed apply, a restart or >=4 frontends; distinct by the "
          "whole history",
     trusted=["Coq 8.16.1 kernel + vm_compute",
@@ -31,7 +36,8 @@ CFG = dict(
     assumptions=["IPv4, no loadBalancerSourceRanges (black-hole frontends), no topology hints, no excluded CIDRs, service is not default/kubernetes",
                  "fewer than 2^32 service ids are allocated (uint32 wrap of nextSvcID not modelled)",
                  "a failed map write leaves the map unchanged; nothing but the Syncer writes the maps while it runs",
-                 "Maglev LUT map (partial): checked only at the end of a completed sync on the implementation's map (complete table of lutSize entries over the service's ready endpoints, no table for an id without maglev frontend); its contents and its mid-update states are not modelled",
+                 "Maglev LUT map: every write to it is recorded too; after EACH single write of any of the three maps the oracle checks that every maglev-flagged frontend with backends finds a complete table (lutSize 7 in the driver); at the end of a completed sync: table over the ready endpoints, no stale table.  The table contents (consistent hash, C33) are an explicit parameter of the model; maglev writes are never made to fail",
+                 "cachingmap behaviour (a failed write stays pending, the other writes of the phase go on, the phase reports the error) is the one proved for the CachingMap model in C18 (c18_cache_failed_update_stays_pending, c18_cache_failed_delete_stays_pending, c18_cache_exact_after_failures); cited, not imported",
                  "affinity map cleanup not modelled",
                  "final_exact oracle: ExternalIP frontends and per-remote-node node-port frontends are not required to carry a local-only flag (the code never sets one on ExternalIP frontends)"],
 )
